@@ -65,6 +65,12 @@ pub fn depth2() -> Vec<AbiType> {
         v.push(AbiType::Struct {
             elements: vec![StructElement::new(8, t.clone())],
         });
+        // a struct may span several words: element offsets are relative to the struct, not to a slot
+        for off in [255usize, 256, 368, 1024, 1 << 20, usize::MAX >> 1] {
+            v.push(AbiType::Struct {
+                elements: vec![StructElement::new(0, AbiType::Bool), StructElement::new(off, t.clone())],
+            });
+        }
     }
     for a in &l {
         for b in &l {
@@ -327,7 +333,7 @@ impl Check for C20 {
     fn coverage(&self, tier: Tier, total: &Ctx) -> Map<String, Value> {
         let rule = format!(
             "complete enumeration of AbiType trees: 30 leaves (every leaf variant, sizes None/1/8/256, conflicts with and without \
-             payload, empty struct), all depth-2 types (arrays of length 0/1/2^64/2^256-1, dynamic arrays, 1- and 2-element structs, \
+             payload, empty struct), all depth-2 types (arrays of length 0/1/2^64/2^256-1, dynamic arrays, 1- and 2-element structs (element offsets 0, 8, 128 and, for multi-word structs, 255, 256, 368, 1024, 2^20, 2^63-1), \
              mappings over all leaf pairs), depth-3 types with {} second component, unary chains to depth 6; plus index in the \
              boundary set ({} values) x every offset 0..=255 x 8 representative types. Oracle: from_str(to_string(e)) == e (and the same through from_slice, from_reader, from_value(to_value(e)) and pretty printing), byte-identical \
              re-serialisation, index is 0x + 64 lowercase hex digits and an independent hex parser reads the exact value. \
